@@ -25,14 +25,16 @@ def tasks(tier):
           W('enough_covered.8_2', 'c18_enough_covered', nseq=8, nsub=2),
           W('enough_covered.10_6', 'c18_enough_covered', nseq=10, nsub=6),
           W('projection_matrix.4_2', 'c18_projection_matrix', nseq=4, nsub=2),
-          W('no_call.2', 'c18_no_call', nseq=2), W('no_call.4', 'c18_no_call', nseq=4), W('calling_error_matrix.2', 'c18_calling_error_matrix', nsub=2), W('calling_error_matrix.4', 'c18_calling_error_matrix', nsub=4),
+          W('no_call.2', 'c18_no_call', nseq=2), W('no_call.4', 'c18_no_call', nseq=4), W('partitions_and_probabilities.2', 'c18_partitions_and_probabilities', nseq=2), W('partitions_and_probabilities.4', 'c18_partitions_and_probabilities', nseq=4),
+          W('lowpass_wrapper', 'c18_lowpass_wrapper'), W('lowpass_wrapper.2pop', 'c18_lowpass_wrapper_2pop'), W('precalc_roles.1', 'c18_precalc_roles', P=1), W('precalc_roles.2', 'c18_precalc_roles', P=2), W('precalc_roles.3', 'c18_precalc_roles', P=3),
+          W('calling_error_matrix.2', 'c18_calling_error_matrix', nsub=2), W('calling_error_matrix.4', 'c18_calling_error_matrix', nsub=4),
           W('part_inbreeding', 'c18_part_inbreeding'), W('subsample_draw', 'c18_subsample_draw')]
     if tier == 'thorough':
         ts += [W('projection_inbreeding.n5_k4', 'c18_projection_inbreeding', n=5, k=4),
                W('projection_inbreeding.n6_k2', 'c18_projection_inbreeding', n=6, k=2),
                W('enough_covered.12_5', 'c18_enough_covered', nseq=12, nsub=5),
                W('projection_matrix.6_4', 'c18_projection_matrix', nseq=6, nsub=4),
-               W('calling_error_matrix.6', 'c18_calling_error_matrix', nsub=6)]
+               W('calling_error_matrix.6', 'c18_calling_error_matrix', nsub=6), W('partitions_and_probabilities.6', 'c18_partitions_and_probabilities', nseq=6)]
     return ts + bounded_tasks('C18', tier)
 
 
@@ -45,6 +47,6 @@ MANIFEST_ENTRY = dict(
     category='other',
     engine='bounded',
     technique='sidecar contracts on the real functions: wiring / closed-form obligations from the AST discharged by z3 and the ring normaliser where the functions are within reach; bounded run-time contracts with independent oracles for the rest (never counted as proved)',
-    text='Discharged from the real source on every run (all values, stated small shapes): split_list_by_lengths, projection_inbreeding (subsets with multiplicity), probability_enough_individuals_covered (binomial tail), projection_matrix rows (F=0 / F!=0), probability_of_no_call_1D_GATK_multisample closed form + definedness (no division by a quantity that can vanish), part_inbreeding_probability (multinomial x beta-binomial weights), calling_error_matrix entry-wise = partition weight x binomial miscall x fair split of the miscalls, rows summing to the partition weights, miscall probability in [0,1] (nsub = 2, 4; partitions by contract, scipy binom.pmf by its documented sum), memo keys, per-locus permutation call site. Bounded run-time contracts (never counted as proved): Partition enumeration exhaustively for n<=10, row-stochastic matrices, no-call bounds, deep-coverage limit, simulated regime.',
+    text='Discharged from the real source on every run (all values, stated small shapes): partitions_and_probabilities (the table of cached_part per allele count in order, probability = multinomial weight x 2^heterozygotes normalised per allele count, sums to one, inbreeding delegated per allele count, refusals; nseq = 2, 4; cached_part / multinomln by contract), split_list_by_lengths, projection_inbreeding (subsets with multiplicity), probability_enough_individuals_covered (binomial tail), projection_matrix rows (F=0 / F!=0), probability_of_no_call_1D_GATK_multisample closed form + definedness (no division by a quantity that can vanish), part_inbreeding_probability (multinomial x beta-binomial weights), calling_error_matrix entry-wise = partition weight x binomial miscall x fair split of the miscalls, rows summing to the partition weights, miscall probability in [0,1] (nsub = 2, 4; partitions by contract, scipy binom.pmf by its documented sum), memo keys, per-locus permutation call site, low_cov_precalc_GATK_multisample_GATK_multisample argument roles (every population with its own coverage distribution, sequenced / subsample size and F reach every helper; 1-3 populations), make_low_pass_func_GATK_multisample (model evaluated at the sequenced sizes, output = (model x not-simulated x called) . projection . miscall + simulated part entry-wise for one population and for two (each axis by its own matrices), flags carried, folded model and Fx = 1 refused). Bounded run-time contracts (never counted as proved): Partition enumeration exhaustively for n<=10, row-stochastic matrices, no-call bounds, deep-coverage limit, simulated regime.',
     note='bounded: see coverage.bounded.drivers[].bound in the evidence file for the exact domain of every driver',
 )
